@@ -1078,7 +1078,7 @@ def run_case(case):
 
 
 def gate(tot, classes, extra, tier):
-    need = 100 if tot["evaluations"] >= 3000 else 0
+    need = min(100, int(0.012 * tot["evaluations"]))     # proportional: monotone in the run length
     miss = []
     for s in SCOPES:
         for st in ("native", "genfn"):
